@@ -801,11 +801,11 @@ func (cs *c18ConnCase) exchanges() ([]c18Exchange, []int) {
 	var exs []c18Exchange
 	var conc []int
 	id := 0
-	for wi, n := range cs.Waves {
+	for _, n := range cs.Waves {
 		for i := 0; i < n; i++ {
 			mm := 0
-			if cs.Mismatch && (wi+i)%3 != 2 {
-				mm = 1 + (wi*7+i)%4
+			if cs.Mismatch && id%5 != 4 {
+				mm = 1 + id%4
 			}
 			ex := c18GenExchange(rng, id, cs.Big && n <= 4, mm)
 			if ex.ReqBody > 50000 {
@@ -820,6 +820,33 @@ func (cs *c18ConnCase) exchanges() ([]c18Exchange, []int) {
 		}
 	}
 	return exs, conc
+}
+
+// c18Dialer is the Transport's Dial hook.  It remembers every connection: the Transport forgets (without
+// closing) the connection of a failed request, and the bubble must not end with live connections.
+type c18Dialer struct {
+	w     *quicworld.World
+	mu    sync.Mutex
+	conns []*quic.Conn
+}
+
+func (d *c18Dialer) dial(ctx context.Context, _ string, _ *tls.Config, _ *quic.Config) (*quic.Conn, error) {
+	c, err := d.w.Dial(ctx)
+	if err == nil {
+		d.mu.Lock()
+		d.conns = append(d.conns, c)
+		d.mu.Unlock()
+	}
+	return c, err
+}
+
+func (d *c18Dialer) closeAll() {
+	d.mu.Lock()
+	conns := d.conns
+	d.mu.Unlock()
+	for _, c := range conns {
+		c.CloseWithError(quic.ApplicationErrorCode(c18ErrNoError), "")
+	}
 }
 
 // c18RunConn runs one connection case inside the caller's bubble.
@@ -853,10 +880,8 @@ func c18RunConn(cs *c18ConnCase) *c18ConnResult {
 	} else {
 		go func() { serveDone <- srv.ServeListener(w.Listener) }()
 	}
-	tr := &http3.Transport{DisableCompression: cs.DisableCompression, Logger: lg,
-		Dial: func(ctx context.Context, _ string, _ *tls.Config, _ *quic.Config) (*quic.Conn, error) {
-			return w.Dial(ctx)
-		}}
+	dialer := &c18Dialer{w: w}
+	tr := &http3.Transport{DisableCompression: cs.DisableCompression, Logger: lg, Dial: dialer.dial}
 	var rt http.RoundTripper = tr
 	var rawConn *quic.Conn
 	if cs.UseClientConn {
@@ -902,6 +927,7 @@ func c18RunConn(cs *c18ConnCase) *c18ConnResult {
 	res.Elapsed = time.Since(start)
 	cancel()
 	tr.Close()
+	dialer.closeAll()
 	if rawConn != nil {
 		rawConn.CloseWithError(quic.ApplicationErrorCode(c18ErrNoError), "")
 	}
@@ -1006,7 +1032,7 @@ func c18ReportConn(l *evlog.Log, c *evlog.Case, cs *c18ConnCase, res *c18ConnRes
 		c.Violation("C18|server|serve-error", res.ServeErr, map[string]any{"conn": cs})
 	}
 	if len(res.Leaked) > 0 {
-		c.Violation("C18|leak|goroutines-alive-after-close", fmt.Sprintf("%d goroutine(s) of the bubble alive 3 s (virtual) after Server.Close, Transport.Close and World.Close:\n%s", len(res.Leaked), res.Leaked[0]), map[string]any{"conn": cs})
+		c.Violation("C18|leak|goroutines-alive-after-close", fmt.Sprintf("%d goroutine(s) of the bubble alive 3 s (virtual) after Server.Close, Transport.Close and World.Close:\n%s", len(res.Leaked), strings.Join(res.Leaked[:min(len(res.Leaked), 6)], "\n\n")), map[string]any{"conn": cs})
 	}
 	if faults && res.FaultsApplied > 0 {
 		c.Sample("exchange-under-faults", map[string]any{"case": cs.Name, "faults_applied": res.FaultsApplied, "exchanges": len(res.Exchanges), "virtual_elapsed": res.Elapsed.String()})
@@ -1065,7 +1091,7 @@ func c18CleanCases(l *evlog.Log, key string, n int, maxConc int) []*c18ConnCase 
 func TestVerifC18Exchanges(t *testing.T) {
 	l := evlog.Open("C18")
 	defer l.Close()
-	cases := c18CleanCases(l, "clean", l.Pick(260, 9000), 16)
+	cases := c18CleanCases(l, "clean", l.Pick(260, 16000), 16)
 	// Content-Length disagreements, both directions, shorter and longer
 	rng := l.Rand("mismatch")
 	for i := 0; i < l.Pick(40, 1200); i++ {
